@@ -584,6 +584,9 @@ def gen_ltree(rng, nsig, nres, depth, lab, in_susp=False, in_row=False):
         if not any(readers(k) for k in kids):
             kids.append([rng.choice([6, 7]), lab.next(), rng.randrange(nres)])
         return [5, lab.next(), int(rng.random() < 0.35) | (2 if rng.random() < 0.15 else 0), kids]
+    if rng.random() < 0.4:
+        # an ErrorBoundary whose dynamic child BRANCHES between a plain text and a Result
+        return [11, lab.next(), gen_expr(rng, nsig), gen_expr(rng, nsig), gen_ltree(rng, nsig, nres, depth - 1, lab, in_susp, in_row)]
     return [8, lab.next(), gen_expr(rng, nsig), gen_ltree(rng, nsig, nres, depth - 1, lab, in_susp, in_row)]
 
 
@@ -611,6 +614,10 @@ def readers(t, s=None):
         return readers(t[3], s)
     if op == 9:
         return set().union(*[readers(k, s) for k in t[1]]) if t[1] else set()
+    if op == 11:
+        if s is not None and (ev(t[2], s) == 0 or ev(t[3], s) == 0):
+            return set()
+        return readers(t[4], s)
     return set()
 
 
@@ -640,6 +647,9 @@ def active_transitions(t, s, out):
     elif op == 9:
         for k in t[1]:
             active_transitions(k, s, out)
+    elif op == 11:
+        if ev(t[2], s) != 0 and ev(t[3], s) != 0:
+            active_transitions(t[4], s, out)
 
 
 def _prod(alts_list):
@@ -681,6 +691,10 @@ def lnodes(t, s, res, shown=frozenset(), touched=frozenset()):
         return _prod([lnodes(k, s, res, shown, touched) for k in t[1]])
     if op == 10:
         return [[]]
+    if op == 11:
+        if ev(t[2], s) == 0:
+            return [[[0, 900 + t[1]]]]
+        return lnodes(t[4], s, res, shown, touched) if ev(t[3], s) != 0 else [[[0, -t[1]]]]
     if op == 5:
         active = set().union(*[readers(k, s) for k in t[3]]) if t[3] else set()
         fallback = [[]] if t[2] & 2 else [[[0, -t[1]]]]
@@ -740,12 +754,14 @@ def boundary_readers(t, out):
     elif op == 9:
         for k in t[1]:
             boundary_readers(k, out)
+    elif op == 11:
+        boundary_readers(t[4], out)
 
 
 def llabels(t):
     op = t[0]
     out = []
-    if op in (1, 3, 4, 5, 6, 7, 8):
+    if op in (1, 3, 4, 5, 6, 7, 8, 11):
         out.append(t[1])
     if op == 2:
         out += [p[1] for p in t[1]]
@@ -763,6 +779,8 @@ def llabels(t):
     elif op == 9:
         for k in t[1]:
             out += llabels(k)
+    elif op == 11:
+        out += llabels(t[4])
     return out
 
 
@@ -814,6 +832,8 @@ def recreated_transitions(t, written, under, out):
     elif op == 9:
         for k in t[1]:
             recreated_transitions(k, written, under, out)
+    elif op == 11:
+        recreated_transitions(t[4], written, under or bool((rd(t[2]) | rd(t[3])) & written), out)
 
 
 def lsignals(t):
@@ -837,24 +857,46 @@ def lsignals(t):
         return rd(t[2]) | lsignals(t[3])
     if op == 9:
         return set().union(*[lsignals(k) for k in t[1]]) if t[1] else set()
+    if op == 11:
+        return rd(t[2]) | rd(t[3]) | lsignals(t[4])
     return set()
 
 
-def luntouched(t, nodes, written, out):
-    """static texts, dynamic texts and elements that are not inside any control-flow component: the same
-    node object, unmutated, unless one of the signals they read was written (an element also when one of
-    its control-flow children may have changed its child list)"""
+def luntouched(t, nodes, written, out, s0=None, s1=None):
+    """static texts, dynamic texts and elements that are not inside any control-flow component — and, through a
+    <Show> whose `when` kept its truth value over the step (its memo did not change, so neither children() nor the
+    fallback ran again), the nodes of the branch on screen: the same node object, unmutated, unless one of the
+    signals they read was written (an element also when one of its control-flow children may have changed its
+    child list). Returns the number of nodes of `nodes` the view accounts for, None where that is not known."""
     if t[0] in (0, 1):
         if len(nodes) >= 1 and not ((rd(t[2]) if t[0] == 1 else set()) & written) and nodes[0][2] != 0:
             out.append("node showing %r has status %d although nothing it reads was written" % (nodes[0][1], nodes[0][2]))
         return 1
+    if t[0] == 10:
+        return 0
+    if t[0] == 9:
+        pos = 0
+        for k in t[1]:
+            n = luntouched(k, nodes[pos:], written, out, s0, s1)
+            if n is None:
+                return None
+            pos += n
+        return pos
+    if t[0] == 3 and s0 is not None:
+        on0, on1 = ev(t[2], s0) != 0, ev(t[2], s1) != 0
+        if on0 != on1:
+            return None
+        bad = []
+        n = luntouched(t[3] if on1 else t[4], nodes, written, bad, s0, s1)
+        for m in bad:
+            out.append("inside <Show#%d>, whose `when` kept its truth value: %s" % (t[1], m))
+        return n
     if t[0] == 2:
         if not nodes or nodes[0][0] != 1:
             return None
         g = set()
         for _k, _l, e in t[1]:
             g |= rd(e)
-        fixed = True
         for k in t[2]:
             if k[0] not in (0, 1, 2):
                 g |= lsignals(k) | {"*"}
@@ -863,11 +905,10 @@ def luntouched(t, nodes, written, out):
             out.append("element has status %d although nothing it reads was written" % node[2])
         pos = 0
         for k in t[2]:
-            if k[0] not in (0, 1, 2):
+            n = luntouched(k, node[3][pos:], written, out, s0, s1)
+            if n is None:
                 break
-            if luntouched(k, node[3][pos:], written, out) is None:
-                break
-            pos += 1
+            pos += n
         return 1
     return None
 
@@ -947,6 +988,7 @@ def oracle_leptos(item, impl):
         entry = impl[k]
         if not (isinstance(entry, list) and len(entry) == 3 and isinstance(entry[1], list)):
             return "malformed observation"
+        s_before = list(s)
         if 0 < k <= len(steps):
             writes, _picks, comps = steps[k - 1]
             written = set()
@@ -1000,7 +1042,7 @@ def oracle_leptos(item, impl):
             return "idle point %d, no resource pending: the mounted DOM differs from a fresh mount" % k
         if 0 < k <= len(steps):
             bad = []
-            luntouched(tree, entry[1], {i for i, _ in steps[k - 1][0]}, bad)
+            luntouched(tree, entry[1], {i for i, _ in steps[k - 1][0]}, bad, s_before, s)
             if bad:
                 return "idle point %d: %s" % (k, bad[0])
     if unmount:
@@ -1311,6 +1353,8 @@ def _has_boundary(t):
         return _has_boundary(t[5] if op == 4 else t[3])
     if op == 9:
         return any(_has_boundary(k) for k in t[1])
+    if op == 11:
+        return _has_boundary(t[4])
     return False
 
 
@@ -1330,6 +1374,8 @@ def _lshape_ok(t, nsig, nres, in_susp=False):
                 and (t[4] == [10] or _lshape_ok(t[4], nsig, nres, in_susp)))
     if op == 9:
         return len(t) == 2 and len(t[1]) <= 3 and all(_lshape_ok(k, nsig, nres, in_susp) for k in t[1])
+    if op == 11:
+        return len(t) == 5 and _expr_ok(t[2], nsig) and _expr_ok(t[3], nsig) and _lshape_ok(t[4], nsig, nres, in_susp)
     if op == 4:
         return (len(t) == 6 and t[2] in (0, 1) and 0 <= t[3] < nsig and len(t[4]) >= 1
                 and all(len(set(l)) == len(l) and all(0 < k < 100 for k in l) for l in t[4])
@@ -1517,6 +1563,9 @@ def _lt(t):
         return "<>%s</>" % " ".join(_lt(k) for k in t[1])
     if op == 10:
         return "()"
+    if op == 11:
+        return "<ErrorBoundary#%d>{if %s == 0 {Left(\"%d\")} else {Right(if %s {Ok(%s)} else {Err})}}</>" % (
+            t[1], _se(t[2]), 900 + t[1], _se(t[3]), _lt(t[4]))
     if op == 4:
         return "<%s#%d each=%r[s%d]>%s</>" % ("ForEnumerate" if t[2] else "For", t[1], t[4], t[3], _lt(t[5]))
     if op == 5:
